@@ -159,7 +159,8 @@ func genC01(t *rapid.T) C01Case {
 		// special fields
 		if rapid.IntRange(0, 2).Draw(t, "hasconn") == 0 {
 			var toks []string
-			for _, k := range []string{"X-Hop-1", "x-hop-2", "keep-alive", "TE", "X-Absent"} {
+			// incl. names of fields the proxy itself adds: the client's copy is hop-by-hop then, the proxy's own is not
+			for _, k := range []string{"X-Hop-1", "x-hop-2", "keep-alive", "TE", "X-Absent", "Via", "x-forwarded-for", "X-Forwarded-Host", "User-Agent", "accept-encoding"} {
 				if rapid.IntRange(0, 2).Draw(t, "nom") == 0 {
 					toks = append(toks, k)
 				}
@@ -566,8 +567,15 @@ func compareC01(c C01Case, s sentReq, got *Msg, clientIP string) (fails []vstat.
 			fails = append(fails, vstat.Failf(key("upgrade"), "upgrade request: Upgrade sent %q got %q", fieldValues(s.fields, "Upgrade"), got.Get("Upgrade")))
 		}
 	}
+	// a special field the client nominated in Connection is hop-by-hop: it counts as not sent
+	eff := func(name string) []string {
+		if nominated[strings.ToLower(name)] {
+			return nil
+		}
+		return fieldValues(s.fields, name)
+	}
 	// Via
-	sentVia := splitList(fieldValues(s.fields, "Via"))
+	sentVia := splitList(eff("Via"))
 	gotVia := splitList(got.Get("Via"))
 	ver := "1.1"
 	if r.HTTP10 {
@@ -592,7 +600,7 @@ func compareC01(c C01Case, s sentReq, got *Msg, clientIP string) (fails []vstat.
 		}
 	}
 	// X-Forwarded-For
-	sentX := splitList(fieldValues(s.fields, "X-Forwarded-For"))
+	sentX := splitList(eff("X-Forwarded-For"))
 	gotX := splitList(got.Get("X-Forwarded-For"))
 	xKey := "xff"
 	if len(fieldValues(s.fields, "X-Forwarded-For")) > 1 {
@@ -610,7 +618,7 @@ func compareC01(c C01Case, s sentReq, got *Msg, clientIP string) (fails []vstat.
 		{"X-Forwarded-Host", s.host, s.host},
 		{"X-Forwarded-Url", scheme + "://" + s.host + r.Path + r.Query, scheme + "://" + s.host + pq},
 	} {
-		sv, gv := fieldValues(s.fields, x.name), got.Get(x.name)
+		sv, gv := eff(x.name), got.Get(x.name)
 		if len(sv) > 0 {
 			if fmt.Sprint(sv) != fmt.Sprint(gv) {
 				fails = append(fails, vstat.Failf(key("xf-changed"), "%s: sent %q, next hop got %q", x.name, sv, gv))
@@ -620,7 +628,7 @@ func compareC01(c C01Case, s sentReq, got *Msg, clientIP string) (fails []vstat.
 		}
 	}
 	// Accept-Encoding
-	sv, gv := fieldValues(s.fields, "Accept-Encoding"), got.Get("Accept-Encoding")
+	sv, gv := eff("Accept-Encoding"), got.Get("Accept-Encoding")
 	if len(sv) > 0 {
 		if fmt.Sprint(sv) != fmt.Sprint(gv) {
 			fails = append(fails, vstat.Failf(key("accept-encoding"), "Accept-Encoding: sent %q got %q", sv, gv))
@@ -629,7 +637,7 @@ func compareC01(c C01Case, s sentReq, got *Msg, clientIP string) (fails []vstat.
 		fails = append(fails, vstat.Failf(key("accept-encoding"), "Accept-Encoding: none sent, got %q", gv))
 	}
 	// User-Agent
-	sv, gv = fieldValues(s.fields, "User-Agent"), got.Get("User-Agent")
+	sv, gv = eff("User-Agent"), got.Get("User-Agent")
 	if fmt.Sprint(sv) != fmt.Sprint(gv) {
 		fails = append(fails, vstat.Failf(key("user-agent"), "User-Agent: sent %q got %q", sv, gv))
 	}
